@@ -30,6 +30,24 @@ Definition c02_mon (post : cache) : bool :=
   forallb (fun e => es e =? true_size e) (ents post) &&
   Bool.eqb (cur post =? 0) (match ents post with [] => true | _ => false end).
 
+(* C03: eviction is minimal, in the TRUE sizes of the entries (not the recorded ones): when an insertion, a mutate that
+   keeps its entry, or a lowered limit made entries leave, the last of them to leave (the most recently used of them)
+   could not have stayed: with it, the entries held afterwards would not fit.  `gone` = the entries of the state
+   before whose key is no longer held. *)
+Definition c03_gone (pre post : cache) : list entry :=
+  filter (fun e => negb (existsb (N.eqb (kid (ek e))) (map (fun e' => kid (ek e')) (ents post)))) (ents pre).
+Definition c03_mon (pre : cache) (p : op) (post : cache) : bool :=
+  let asked := match p with
+               | Insert _ _ | SetMaxSize _ => true
+               | Mutate q _ _ => existsb (N.eqb q) (map (fun e' => kid (ek e')) (ents post))
+               | _ => false
+               end in
+  if asked then match rev (c03_gone pre post) with
+                | [] => true
+                | e :: _ => maxs post <? sumN (map true_size (ents post)) + true_size e
+                end
+  else true.
+
 (* C04: at most one entry per key *)
 Definition c04_nodup_mon (post : cache) : bool := nodup_b (map (fun e => kid (ek e)) (ents post)).
 
